@@ -12,6 +12,8 @@
 (*   frombytes_wide {w, h, len_c, len_r, res, exp_c, exp_r, act_c, act_r}   *)
 (*             sizes of 4 GiB and more: lengths as (chunks of 16, rest)    *)
 (*   set1_wide {w, h, x, y, changed: <<hi, lo, value>>.., panic, reads}    *)
+(*   tall_new / tall_frombytes / tall_set1: the same for heights up to     *)
+(*             2^32 - 1, given as hq = h div 8, hr = h mod 8 (yq = y div 8)*)
 (***************************************************************************)
 EXTENDS Page, TraceBase
 
@@ -103,6 +105,30 @@ Set1WideEv == /\ IsEvent("set1_wide")
               /\ E.reads = TRUE
               /\ UNCHANGED o
 
-Next == FromBytesWideEv \/ Set1WideEv \/ PageEv \/ OpEv \/ SparseEv \/ NewSumEv \/ NewEv \/ Set1Ev \/ FromBytesEv
+TallNewEv == /\ IsEvent("tall_new")
+             /\ E.panic = FALSE
+             /\ E.len_c = TallChunks(E.w, E.hq, E.hr) /\ E.len_r = 0
+             /\ E.header = <<E.id, 16, 0, 0>>
+             \* the first byte after the header that is not zero is the first byte of the 0xFF padding (if there is padding)
+             /\ LET e == TallDataEnd(E.w, E.hq, E.hr) IN
+                  IF e[1] * 4096 + e[2] \div 16 = E.len_c /\ e[2] % 16 = 0 THEN E.first_nonzero = <<-1, -1, 0>>
+                  ELSE E.first_nonzero = <<e[1], e[2], 255>>
+             /\ UNCHANGED o
+
+TallFromBytesEv ==
+    /\ IsEvent("tall_frombytes")
+    /\ IF E.len_c = TallChunks(E.w, E.hq, E.hr) /\ E.len_r = 0
+       THEN E.res = "ok"
+       ELSE /\ E.res = "wronglength" /\ E.exp_c = TallChunks(E.w, E.hq, E.hr) /\ E.exp_r = 0
+            /\ E.act_c = E.len_c /\ E.act_r = E.len_r
+    /\ UNCHANGED o
+
+TallSet1Ev == /\ IsEvent("tall_set1")
+              /\ E.panic = FALSE
+              /\ LET t == TallIndex(E.hq, E.hr, E.x, E.yq) IN E.changed = << <<t[1], t[2], Pow2(E.yr)>> >>
+              /\ E.reads = TRUE
+              /\ UNCHANGED o
+
+Next == TallNewEv \/ TallFromBytesEv \/ TallSet1Ev \/ FromBytesWideEv \/ Set1WideEv \/ PageEv \/ OpEv \/ SparseEv \/ NewSumEv \/ NewEv \/ Set1Ev \/ FromBytesEv
 Spec == Init /\ [][Next]_vars
 =============================================================================
